@@ -24,6 +24,7 @@ import (
 	"os"
 	"os/exec"
 	"path/filepath"
+	"reflect"
 	"sort"
 	"strings"
 	"time"
@@ -553,6 +554,7 @@ func typeCheck(src string) goInfo {
 type evalResult struct {
 	Err    string            `json:"err,omitempty"`
 	PreErr string            `json:"pre_err,omitempty"` // history: the FIRST evaluation failed (reported by the plain stream, not here)
+	Links  []typeLink        `json:"links,omitempty"`   // history: struct types of the last evaluation, see typeLinks
 	Loop   bool              `json:"loop,omitempty"`
 	Values map[string]string `json:"values,omitempty"`
 }
@@ -571,6 +573,9 @@ func evalGomacro(pre, src string, shows []string) (res evalResult) {
 		res.Loop = strings.Contains(res.Err, "declaration loop")
 		return
 	}
+	if pre != "" {
+		res.Links = typeLinks(ir, src)
+	}
 	res.Values = map[string]string{}
 	for _, sh := range shows {
 		if p := vh.Catch(func() {
@@ -585,6 +590,95 @@ func evalGomacro(pre, src string, shows []string) (res evalResult) {
 		}
 	}
 	return
+}
+
+// typeLink: the struct type Type (as bound in Comp.Types after the evaluation) has a field whose type refers, through
+// pointers / slices / arrays / maps, to a named type called Ref that the same source declares; Current tells whether that
+// type is identical to the type NOW bound to the name Ref.  Go: a declaration refers to the types of its own package
+// as declared by this source, so Current must be true for every link.
+type typeLink struct {
+	Type    string `json:"type"`
+	Field   string `json:"field"`
+	Ref     string `json:"ref"`
+	Current bool   `json:"current"`
+}
+
+func declaredTypes(src string) []string {
+	fset := token.NewFileSet()
+	f, err := goparser.ParseFile(fset, "p.go", "package p\n"+src, 0)
+	if err != nil {
+		return nil
+	}
+	var names []string
+	for _, d := range f.Decls {
+		if gd, ok := d.(*ast.GenDecl); ok && gd.Tok == token.TYPE {
+			for _, sp := range gd.Specs {
+				names = append(names, sp.(*ast.TypeSpec).Name.Name)
+			}
+		}
+	}
+	sort.Strings(names)
+	return names
+}
+
+func typeLinks(ir *fast.Interp, src string) (links []typeLink) {
+	names := declaredTypes(src)
+	declared := map[string]bool{}
+	for _, n := range names {
+		declared[n] = true
+	}
+	for _, n := range names {
+		vh.Catch(func() {
+			t := ir.Comp.Types[n]
+			if t == nil || t.Kind() != reflect.Struct {
+				return
+			}
+			for i := 0; i < t.NumField(); i++ {
+				f := t.Field(i)
+				ft := f.Type
+				for depth := 0; ft != nil && depth < 8; depth++ {
+					k := ft.Kind()
+					if ft.Named() || !(k == reflect.Ptr || k == reflect.Slice || k == reflect.Array || k == reflect.Map) {
+						break
+					}
+					ft = ft.Elem()
+				}
+				if ft == nil || !ft.Named() || !declared[ft.Name()] {
+					continue
+				}
+				cur := ir.Comp.Types[ft.Name()]
+				links = append(links, typeLink{Type: n, Field: f.Name, Ref: ft.Name(), Current: cur != nil && ft.IdenticalTo(cur)})
+			}
+		})
+	}
+	return
+}
+
+// histItems: the TypeFwd / Type elements of the sorter's output as items of the Coq history model (coq/C16/HistModel.v);
+// references = the Deps that name a type declared by the same source
+func histItems(out []outDecl) string {
+	isType := map[string]bool{}
+	for _, d := range out {
+		if d.Kind == "Type" {
+			isType[d.Name] = true
+		}
+	}
+	var items []string
+	for _, d := range out {
+		switch d.Kind {
+		case "TypeFwd":
+			items = append(items, "IFwd "+vh.CoqStr(d.Name))
+		case "Type":
+			var refs []string
+			for _, x := range d.Deps {
+				if isType[x] {
+					refs = append(refs, vh.CoqStr(x))
+				}
+			}
+			items = append(items, "IType "+vh.CoqStr(d.Name)+" "+vh.CoqList(refs, "str"))
+		}
+	}
+	return vh.CoqList(items, "item")
 }
 
 // ---------- dep.Sorter observation + model case (as in cmd/c17, declaration runs only) ----------
@@ -856,10 +950,13 @@ func main() {
 	rep.Extra["oracle_build_seconds"] = int(time.Since(t0).Seconds())
 	wd := vh.NewWatchdog(rep, 60*time.Second)
 	idx := 0
+	var histCases []string
+	os.Remove(a.Path("cases_hist.v"))
 	for i, v := range vs {
 		wd.Beat(v)
 		gi := infos[i]
 		res := evalGomacro(v.Pre, v.Src, v.Shows)
+		out, loop, other, model := sorterRun(v.Src)
 		if v.Pre != "" {
 			if gp := typeCheck(v.Pre); gp.Err != "" {
 				fail(v, "harness: first set of the history is not valid Go", gp.Err, nil)
@@ -867,8 +964,26 @@ func main() {
 			if res.PreErr != "" {
 				rep.Dist("history:first-evaluation-failed")
 			}
+			stale := false
+			for _, l := range res.Links {
+				if !l.Current && !stale {
+					stale = true
+					fail(v, "a redefined type refers to a STALE version of a type redefined by the same evaluation (field "+l.Type+"."+l.Field+" -> "+l.Ref+")", res.Links, "every link identical to the type now bound to the name")
+				}
+			}
+			rep.Dist(fmt.Sprintf("history:type-links-observed:%d", min(len(res.Links), 6)))
+			// model case (coq/C16/HistModel.v): both sorter outputs -> the same link verdicts
+			out1, loop1, other1, _ := sorterRun(v.Pre)
+			if res.PreErr == "" && res.Err == "" && !loop1 && other1 == "" && !loop && other == "" {
+				var obs []string
+				for _, l := range res.Links {
+					obs = append(obs, fmt.Sprintf("(%s, %s, %s)", vh.CoqStr(l.Type), vh.CoqStr(l.Ref), vh.CoqBool(l.Current)))
+				}
+				hidx := 100000 + len(histCases)
+				histCases = append(histCases, fmt.Sprintf("mkHCase %d [%s; %s] %s", hidx, histItems(out1), histItems(out), vh.CoqList(obs, "(str * str * bool)")))
+				rep.CaseInput(hidx, map[string]interface{}{"src": v.Src, "origin": v.Origin, "evaluated_before_in_the_same_interpreter": v.Pre, "links": res.Links})
+			}
 		}
-		out, loop, other, model := sorterRun(v.Src)
 		nrefs := strings.Count(model, "[") // rough: any dependency list
 		rep.Count(v.Src, nrefs > 0)
 		rep.Dist("origin:" + v.Origin)
@@ -956,8 +1071,22 @@ func main() {
 		}
 	}
 	cw.Close()
+	if len(histCases) > 0 {
+		body := "From Coq Require Import List NArith ZArith.\nFrom Verif Require Import Common.GoStr C16.HistModel.\nImport ListNotations.\nOpen Scope Z_scope.\n" +
+			"Definition cases : list hcase := [\n " + strings.Join(histCases, ";\n ") + "\n].\n" +
+			"Definition verif_mismatches : list Z := Eval vm_compute in hist_mismatches cases.\nPrint verif_mismatches.\n"
+		os.WriteFile(a.Path("cases_hist.v"), []byte(body), 0o644)
+	}
+	rep.Extra["history_model_cases"] = len(histCases)
 	rep.Extra["variants_compiled_by_go_build"] = len(compile)
 	rep.Extra["declaration_sets"] = nSets + nCyc
 	rep.Extra["excluded_by_known_finding_class_C16_6"] = excluded6
 	rep.Write()
+}
+
+func min(a, b int) int {
+	if a < b {
+		return a
+	}
+	return b
 }
